@@ -403,6 +403,43 @@ def run_api(payload):
         shutil.rmtree(root, ignore_errors=True)
 
 
+def _meaning(projdir, backend):
+    """Order-insensitive reading of a rendered project: index table, RHS polynomials, macro sizes (as text)."""
+    from ..ctext.extract import Project
+
+    pr = Project(projdir, *backend)
+    fex = pr.fex_polys()
+    return {"idx": sorted(pr.idx_table().items()), "fex": {str(k): str(v) for k, v in sorted(fex.items())},
+            "sizes": [pr.neq, pr.nspec, pr.nreac]}
+
+
+def rerender_exported(payload):
+    """Fresh process: `naunet render --force` inside an exported project."""
+    from cleo.application import Application
+    from cleo.testers.command_tester import CommandTester
+    from naunet.console.commands import RenderCommand
+
+    cwd = os.getcwd()
+    os.chdir(payload["dir"])
+    try:
+        app = Application()
+        app.add(RenderCommand())
+        t = CommandTester(app.find("render"))
+        try:
+            rc = t.execute("--force")
+        except Exception as e:
+            import traceback
+
+            tb = traceback.extract_tb(e.__traceback__)
+            where = next((f"{fr.filename.split('/')[-1]}:{fr.name}" for fr in reversed(tb) if "/naunet/" in fr.filename), "?")
+            return {"raised": f"{type(e).__name__}@{where}: {str(e)[:200]}"}
+        if rc != 0:
+            return {"raised": f"status {rc}: {t.io.fetch_error()[-200:]}"}
+        return {"meaning": _meaning(Path(payload["dir"]), payload["backend"])}
+    finally:
+        os.chdir(cwd)
+
+
 def run_export(payload):
     """Fresh process: Network(...) through the API, then Network.export(); returns the written configuration."""
     from naunet.species import Species
@@ -445,7 +482,15 @@ def run_export(payload):
             tb = traceback.extract_tb(e.__traceback__)
             where = next((f"{fr.filename.split('/')[-1]}:{fr.name}" for fr in reversed(tb) if "/naunet/" in fr.filename), "?")
             return {"raised": f"{type(e).__name__}@{where}: {str(e)[:200]}"}
-        return {"config": (Path(root) / "vtexp" / "naunet_config.toml").read_text()}
+        out = {"config": (Path(root) / "vtexp" / "naunet_config.toml").read_text()}
+        if payload.get("rerender"):
+            # what the exported project means as rendered by export() itself (API), then - in a second fresh process -
+            # as rendered by `naunet render` from the exported files
+            out["api_meaning"] = _meaning(Path(root) / "vtexp", d["backend"])
+            from ..proc.call import call
+
+            out["cli"] = call("vtlib.checks.c20", "rerender_exported", {"dir": str(Path(root) / "vtexp"), "backend": d["backend"]})
+        return out
     finally:
         os.chdir(cwd)
         if not payload.get("root"):
@@ -471,7 +516,7 @@ def check_export(d):
         finally:
             shutil.rmtree(keep, ignore_errors=True)
     else:
-        res = call("vtlib.checks.c20", "run_export", {"desc": d})
+        res = call("vtlib.checks.c20", "run_export", {"desc": d, "rerender": True})
     if "raised" in res:
         failures.append((f"export/raises/{res['raised'].split(':')[0]}", res["raised"]))
         return CaseResult(failures, True, labels, sample={"rate_mod": d["rate_mod"]})
@@ -482,8 +527,11 @@ def check_export(d):
         ent = om.setdefault(t, {"factors": [], "reactants": []})
         ent["factors"].append(f)
         ent["reactants"].append(list(deps))
+    # export writes the species under their renamed symbols (HE -> He); a self-consistent project therefore lists the
+    # symbols renamed as well (the table has been applied) - judged for real by the re-rendering below
+    rn = lambda xs: [d["replacement"].get(x, x) for x in xs]
     want = {
-        "symbol.surface": d["surface"], "symbol.bulk": d["bulk"], "element.elements": list(d["elements"]), "element.pseudo_elements": list(d["pseudo"]),
+        "symbol.surface": d["surface"], "symbol.bulk": d["bulk"], "element.elements": rn(d["elements"]), "element.pseudo_elements": rn(d["pseudo"]),
         "species.allowed": list(d["allowed"]), "species.required": list(d["required"]), "grain.model": d["grain_model"], "thermal.cooling": list(d["cooling"]),
         "shielding": dict(d["shielding"]), "rate_modifier": {str(k): str(v) for k, v in d["rate_mod"].items()}, "ode_modifier": om,
         "solver": [d["backend"][0], d["backend"][2], d["backend"][1]],
@@ -499,6 +547,25 @@ def check_export(d):
     for key, w in want.items():
         if got[key] != w:
             failures.append((f"export/field/{key}", f"exported naunet_config.toml: {key} = {got[key]!r} but the network was built with {w!r}"))
+    # the exported project, rendered by `naunet render` from its own files, is the network that export() rendered
+    if "cli" in res and not failures:
+        labels.append("export-rerendered")
+        tag = "/replacement" if d["replacement"] else "/non-default-surface-prefix" if d["surface"] != "#" else ""
+        if "raised" in res["cli"]:
+            why = res["cli"]["raised"]
+            if why.startswith("AttributeError@") and "grain.py" in why.split(":")[0] and "SimpleNamespace" in why:
+                # the native reaction class does not register the symbols (zism, H2 formation rate, ...) the dust model reads
+                # from the reaction: the exported project has lost the source format's reaction class
+                key = "export/rerender-raises/grain-model-needs-symbols-of-the-source-format"
+            elif d["surface"] != "#" and "unrecognizable" in why:
+                key = "export/rerender-raises/non-default-surface-prefix"
+            else:
+                key = f"export/rerender-raises{tag}/{why.split(':')[0]}"
+            failures.append((key, f"`naunet render` in the exported project: {why}"))
+        elif res["cli"]["meaning"] != res["api_meaning"]:
+            a, b = res["api_meaning"], res["cli"]["meaning"]
+            what = "sizes" if a["sizes"] != b["sizes"] else "index-table" if a["idx"] != b["idx"] else "right-hand-side"
+            failures.append((f"export/rerender-differs{tag}/{what}", f"`naunet render` in the exported project gives another {what}: {str(b[what if what != 'index-table' else 'idx'])[:200]} vs {str(a[what if what != 'index-table' else 'idx'])[:200]} rendered by export()"))
     # user-given binding energies / yields must be in the exported tables (the export lists every ice species)
     for k, v in d["binding"].items():
         if float(ch["species"]["binding_energy"].get(k, float("nan"))) != float(v):
